@@ -5,6 +5,7 @@ package rules
 // access-path keys, callee success summaries and functional-option contexts).
 
 import (
+	"os"
 	"fmt"
 	"go/token"
 	"go/types"
@@ -39,12 +40,12 @@ type pfState struct {
 	lenGE  map[string][]lin  // len(key) >= each bound
 	nonNil map[string]bool   // value at key is not nil
 	dyn    map[string]string // interface value at key has this dynamic type
-	eq     map[string]string // integer-typed value at key equals this constant / caller term
+	eq     map[string]lin    // integer-typed value at key equals this constant / caller term
 	dead   bool              // unreachable (pruned)
 }
 
 func newState() *pfState {
-	return &pfState{lenGE: map[string][]lin{}, nonNil: map[string]bool{}, dyn: map[string]string{}, eq: map[string]string{}}
+	return &pfState{lenGE: map[string][]lin{}, nonNil: map[string]bool{}, dyn: map[string]string{}, eq: map[string]lin{}}
 }
 
 func (s *pfState) clone() *pfState {
@@ -254,6 +255,7 @@ type pfEngine struct {
 	analysed  map[*ssa.Function]bool
 	exported  map[*ssa.Function]bool // entry functions whose parameters are caller-controlled
 	newIntOK  map[string]bool        // accepted dynamic types of ber.NewInteger
+	berTypes  map[int64]string       // universal primitive tag -> dynamic type of Packet.Value after ber.readPacket
 	depth     int
 }
 
@@ -334,6 +336,99 @@ func (e *pfEngine) extractNewIntegerTypes() map[string]bool {
 		e.c.R.Fatal("LIB-ber-newinteger: cannot re-derive the accepted types of ber.NewInteger (found %d, panic=%v)", len(out), hasPanic)
 	}
 	return out
+}
+
+// berValueTypes re-derives, from the source of ber.readPacket, which dynamic
+// type Packet.Value has for a universal primitive packet of a given tag: the
+// stores to p.Value that are control-dependent on `p.Tag == k` (switch arm)
+// inside the `p.ClassType == ClassUniversal` branch. A tag is listed only if
+// every store in its arm stores one and the same type unconditionally at the
+// head of the arm.
+func (e *pfEngine) berValueTypes() map[int64]string {
+	if e.berTypes != nil {
+		return e.berTypes
+	}
+	e.berTypes = map[int64]string{}
+	f := e.c.P.Func(an.PkgBer, "readPacket")
+	if f == nil {
+		return e.berTypes
+	}
+	dom := func(b *ssa.BasicBlock) *ssa.BasicBlock { return b.Idom() }
+	type arm struct {
+		types map[string]bool
+		cond  bool
+	}
+	arms := map[int64]*arm{}
+	an.Instrs(f, func(in ssa.Instruction) {
+		st, ok := in.(*ssa.Store)
+		if !ok {
+			return
+		}
+		fa, ok := st.Addr.(*ssa.FieldAddr)
+		if !ok || an.FieldAddrName(fa) != "Value" || !an.TypeIs(fa.X.Type(), an.PkgBer, "Packet") {
+			return
+		}
+		if c, ok := st.Val.(*ssa.Const); ok && c.IsNil() {
+			return // p.Value = nil initialisation
+		}
+		mi, ok := st.Val.(*ssa.MakeInterface)
+		if !ok {
+			return
+		}
+		// nearest dominating `Tag == k` test taken on its true edge
+		b := st.Block()
+		direct := true
+		for d := dom(b); d != nil; b, d = d, dom(d) {
+			iff, ok := d.Instrs[len(d.Instrs)-1].(*ssa.If)
+			if !ok {
+				continue
+			}
+			bo, ok := iff.Cond.(*ssa.BinOp)
+			if !ok || bo.Op != token.EQL {
+				direct = false
+				continue
+			}
+			k, isK := an.IntConst(bo.Y)
+			ld, isLd := bo.X.(*ssa.UnOp)
+			if !isK || !isLd {
+				direct = false
+				continue
+			}
+			tfa, ok := ld.X.(*ssa.FieldAddr)
+			if !ok || an.FieldAddrName(tfa) != "Tag" {
+				direct = false
+				continue
+			}
+			if d.Succs[0] != b {
+				// reached through the false edge: an earlier arm's test
+				continue
+			}
+			a := arms[k]
+			if a == nil {
+				a = &arm{types: map[string]bool{}}
+				arms[k] = a
+			}
+			a.types[types.TypeString(mi.X.Type(), nil)] = true
+			if !direct {
+				a.cond = true
+			}
+			return
+		}
+	})
+	for k, a := range arms {
+		if len(a.types) == 1 && !a.cond {
+			for t := range a.types {
+				e.berTypes[k] = t
+			}
+		}
+	}
+	// the facts the decode slice relies on; if the library no longer gives them, say so
+	for k, want := range map[int64]string{1: "bool", 2: "int64", 4: "string", 10: "int64"} {
+		if e.berTypes[k] != want {
+			e.c.R.Fatal("LIB-ber-valuetypes: cannot re-derive from ber.readPacket that a universal primitive packet of tag %d carries a %s Value (derived %q)", k, want, e.berTypes[k])
+		}
+	}
+	return e.berTypes
 }
 
 // ---------------------------------------------------------------- keys
@@ -466,6 +561,7 @@ type pfRun struct {
 	entry    *pfState
 	liveEdge map[[2]*ssa.BasicBlock]bool // CFG edges that can be taken under the option context
 	phiAlias map[*ssa.Phi]ssa.Value      // phis with a single live incoming edge
+	inIdx    bool
 }
 
 // key is the access-path key of a value; under an option context a phi with
@@ -475,6 +571,18 @@ func (r *pfRun) key(v ssa.Value) string {
 		old := an.PhiHook
 		an.PhiHook = func(p *ssa.Phi) ssa.Value { return r.phiAlias[p] }
 		defer func() { an.PhiHook = old }()
+	}
+	if r.ctx != nil && r.ctx.known && !r.inIdx {
+		old := an.IdxHook
+		an.IdxHook = func(iv ssa.Value) (string, bool) {
+			r.inIdx = true
+			defer func() { r.inIdx = false }()
+			if l := r.evalInt(iv, nil); l.base == "" {
+				return fmt.Sprint(l.off), true
+			}
+			return "", false
+		}
+		defer func() { an.IdxHook = old }()
 	}
 	return an.Path(v)
 }
@@ -488,6 +596,52 @@ func (e *pfEngine) analyse(fn *ssa.Function, ctx *optCtx, entry *pfState, check 
 	if entry == nil {
 		entry = newState()
 	}
+	r.fixpoint(entry)
+	if ctx != nil && ctx.known {
+		// second pass under the option context: a phi whose other incoming
+		// edges are infeasible under the context denotes its one live operand
+		// (e.g. chkPacket in (*packet).assert once withAssertChild is known).
+		alias := map[*ssa.Phi]ssa.Value{}
+		for _, b := range fn.Blocks {
+			if r.in[b] == nil {
+				continue
+			}
+			for _, in := range b.Instrs {
+				phi, ok := in.(*ssa.Phi)
+				if !ok {
+					break
+				}
+				var live []ssa.Value
+				for i, p := range b.Preds {
+					if r.in[p] != nil && r.liveEdge[[2]*ssa.BasicBlock{p, b}] {
+						live = append(live, phi.Edges[i])
+					}
+				}
+				if len(live) == 1 && len(phi.Edges) > 1 {
+					alias[phi] = live[0]
+				}
+			}
+		}
+		if len(alias) > 0 {
+			r.phiAlias = alias
+			r.in = map[*ssa.BasicBlock]*pfState{}
+			r.fixpoint(entry)
+		}
+	}
+	if check {
+		r.check = true
+		for _, b := range fn.Blocks {
+			if st := r.in[b]; st != nil && !st.dead {
+				r.transfer(b, st.clone(), true)
+			}
+		}
+	}
+	return r
+}
+
+func (r *pfRun) fixpoint(entry *pfState) {
+	fn := r.fn
+	r.liveEdge = map[[2]*ssa.BasicBlock]bool{}
 	r.in[fn.Blocks[0]] = entry.clone()
 	work := []*ssa.BasicBlock{fn.Blocks[0]}
 	inWork := map[*ssa.BasicBlock]bool{fn.Blocks[0]: true}
@@ -506,6 +660,7 @@ func (e *pfEngine) analyse(fn *ssa.Function, ctx *optCtx, entry *pfState, check 
 			if i >= len(outs) || outs[i] == nil || outs[i].dead {
 				continue
 			}
+			r.liveEdge[[2]*ssa.BasicBlock{b, s}] = true
 			var ns *pfState
 			if old := r.in[s]; old == nil {
 				ns = outs[i]
@@ -521,15 +676,6 @@ func (e *pfEngine) analyse(fn *ssa.Function, ctx *optCtx, entry *pfState, check 
 			}
 		}
 	}
-	if check {
-		r.check = true
-		for _, b := range fn.Blocks {
-			if st := r.in[b]; st != nil && !st.dead {
-				r.transfer(b, st.clone(), true)
-			}
-		}
-	}
-	return r
 }
 
 // findOptsValues marks the getter call result and local copies of it.
@@ -684,7 +830,7 @@ func (r *pfRun) applyCond(st *pfState, cond ssa.Value, truth bool) bool {
 			if base, name, ok := an.LoadField(x); ok && truth {
 				if nt := an.StructOf(base.Type()); nt != nil {
 					if ff := r.e.flagFacts[nt.Obj().Name()+"."+name]; ff != nil {
-						r.instantiate(st, ff, map[string]string{"$recv": r.key(base)})
+						r.instantiate(st, ff, map[string]string{"$recv": r.key(base)}, nil)
 					}
 				}
 			}
@@ -737,6 +883,10 @@ func (r *pfRun) applyCond(st *pfState, cond ssa.Value, truth bool) bool {
 			}
 			r.lenFact(st, a, op, b)
 			r.lenFact(st, b, flip(op), a)
+			if op == token.EQL {
+				r.eqFact(st, a, b)
+				r.eqFact(st, b, a)
+			}
 		}
 	}
 	return true
@@ -795,6 +945,46 @@ func cmp(a int64, op token.Token, b int64) bool {
 		return a != b
 	}
 	return true
+}
+
+// eqFact records "the integer at key a.base equals b" (b a constant, a
+// parameter of this function or a caller-side term).
+func (r *pfRun) eqFact(st *pfState, a, b lin) {
+	if a.base == "" || a.off != 0 || strings.HasPrefix(a.base, "len:") || strings.HasPrefix(a.base, "caller:") {
+		return
+	}
+	if strings.HasPrefix(b.base, "len:") {
+		return
+	}
+	st.eq[a.base] = b
+	r.deriveDyn(st, a.base)
+}
+
+// deriveDyn: once class, type and tag of a ber packet N are known constants,
+// the dynamic type of N.Value follows from how ber.readPacket fills it (table
+// re-derived from the library source on every run, see berValueTypes).
+func (r *pfRun) deriveDyn(st *pfState, k string) {
+	i := strings.LastIndex(k, ".Identifier.")
+	if i < 0 {
+		return
+	}
+	N := k[:i]
+	get := func(f string) (int64, bool) {
+		l, ok := st.eq[N+".Identifier."+f]
+		if !ok || l.base != "" {
+			return 0, false
+		}
+		return l.off, true
+	}
+	cl, ok1 := get("ClassType")
+	ty, ok2 := get("TagType")
+	tg, ok3 := get("Tag")
+	if !ok1 || !ok2 || !ok3 || cl != 0 || ty != 0 {
+		return
+	}
+	if t, ok := r.e.berValueTypes()[tg]; ok {
+		st.dyn[N+".Value"] = t
+	}
 }
 
 // lenFact: from `a op b` with a = len(S)+k derive a lower bound on len(S).
@@ -966,12 +1156,17 @@ func (r *pfRun) applySummary(st *pfState, call *ssa.Call) {
 		return
 	}
 	subst := map[string]string{}
+	substInt := map[string]lin{}
 	for i, p := range f.Params {
 		if i < len(call.Common().Args) {
-			subst[p.Name()] = r.key(call.Common().Args[i])
+			a := call.Common().Args[i]
+			subst[p.Name()] = r.key(a)
+			if isIntType(a.Type()) {
+				substInt[p.Name()] = r.evalInt(a, st)
+			}
 		}
 	}
-	r.instantiate(st, sum.facts, subst)
+	r.instantiate(st, sum.facts, subst, substInt)
 	for i := range sum.resNonNil {
 		if f.Signature.Results().Len() == 1 {
 			st.nonNil[r.key(call)] = true
@@ -982,7 +1177,7 @@ func (r *pfRun) applySummary(st *pfState, call *ssa.Call) {
 }
 
 // instantiate copies facts whose keys are rooted at a substituted name.
-func (r *pfRun) instantiate(st *pfState, facts *pfState, subst map[string]string) {
+func (r *pfRun) instantiate(st *pfState, facts *pfState, subst map[string]string, substInt map[string]lin) {
 	if facts == nil {
 		return
 	}
@@ -1017,6 +1212,25 @@ func (r *pfRun) instantiate(st *pfState, facts *pfState, subst map[string]string
 		if nk, ok := tr(k); ok {
 			st.dyn[nk] = v
 		}
+	}
+	for k, v := range facts.eq {
+		nk, ok := tr(k)
+		if !ok {
+			continue
+		}
+		switch {
+		case v.base == "":
+		case strings.HasPrefix(v.base, "caller:"):
+			v.base = strings.TrimPrefix(v.base, "caller:")
+		default:
+			a, ok := substInt[v.base]
+			if !ok {
+				continue
+			}
+			v = lin{a.base, a.off + v.off, false}
+		}
+		st.eq[nk] = v
+		r.deriveDyn(st, nk)
 	}
 }
 
@@ -1190,7 +1404,15 @@ func (e *pfEngine) summary(f *ssa.Function, ctx *optCtx) *pfSummary {
 			keep.dyn[k] = v
 		}
 	}
+	for k, v := range acc.eq {
+		if rooted(k) {
+			keep.eq[k] = v
+		}
+	}
 	sum.facts = keep
+	if os.Getenv("GLDAPCHECK_PFDEBUG") != "" && strings.Contains(sig, os.Getenv("GLDAPCHECK_PFDEBUG")) {
+		fmt.Fprintf(os.Stderr, "PFSUM %s\n  alias=%d\n  acc.eq=%v\n  keep.eq=%v\n  keep.len=%v\n", sig, len(run.phiAlias), acc.eq, keep.eq, keep.lenGE)
+	}
 	if !first {
 		for i, ok := range nonNilAll {
 			if ok && i != ei {
